@@ -485,7 +485,10 @@ class DataSet:
             self._mask.update({i: False for i in range(0, self._num_points)})
             return
 
-        mask = mask.copy()
+        # Store plain Python integers and booleans (NumPy integers and booleans
+        # are accepted as input) so that the dictionary returned by to_dict
+        # can be serialized as JSON.
+        mask = {int(i): bool(flag) for i, flag in mask.items()}
 
         for i in list(mask.keys()):
             if i < 0 or i >= self._num_points:
